@@ -1392,6 +1392,37 @@ func emC19(sc emScript) *emFail {
 					i, st.K, st.M, p1, o1.PC, o1.Flags, o1.Labels, emTotal(sz), p2, o2.PC, o2.Flags, o2.Labels))
 		}
 	}
+	// (3) the block of a Clone is a block too: an Append that does not fit the remaining capacity is refused as a
+	// whole and leaves bytes, Len, PC and every label of the receiving emitter as they were
+	total := emTotal(sz)
+	for _, k := range []int{0, len(sc.Steps) / 2, len(sc.Steps) - 1} {
+		if k < 0 || k > len(sc.Steps) {
+			continue
+		}
+		orig := asm.NewEmitter(emWindow(false, total, sc.Fill), sc.Gen)
+		emRunFlat(orig, sc.Steps[:k])
+		cl := orig.Clone(emWindow(false, total+4, sc.Fill+1))
+		emRunFlat(cl, sc.Steps[k:])
+		if cl.Len() == 0 {
+			continue
+		}
+		small := asm.NewEmitter(emWindow(false, orig.Len()+cl.Len()-1, sc.Fill), sc.Gen)
+		emRunFlat(small, sc.Steps[:k])
+		if small.Len() != orig.Len() {
+			continue
+		}
+		before := emObserve(small)
+		if !emProtect(func() { small.Append(cl) }) {
+			return fail("C19.all_or_nothing", "append-overflow-accepted",
+				fmt.Sprintf("split %d: Append of a %d-byte clone into %d free bytes was accepted (Len %d Cap %d afterwards)", k, cl.Len(), before.Cap-before.Len, small.Len(), small.Cap()))
+		}
+		after := emObserve(small)
+		if !reflect.DeepEqual(before.Bytes, after.Bytes) || before.Len != after.Len || before.PC != after.PC || !reflect.DeepEqual(before.Labels, after.Labels) {
+			return fail("C19.refused_frame", "refused-append-changes-state",
+				fmt.Sprintf("split %d: Append of a %d-byte clone into %d free bytes was refused and left bytes/len/pc/labels %v/%d/%#x/%v, before %v/%d/%#x/%v",
+					k, cl.Len(), before.Cap-before.Len, after.Bytes, after.Len, after.PC, after.Labels, before.Bytes, before.Len, before.PC, before.Labels))
+		}
+	}
 	return nil
 }
 
